@@ -129,9 +129,14 @@ def shape_map_items(rnd, T, classes, wildcards=False):
     items = []
     nodes = sorted({s for s, p, o in T if s[0] == "IRI"})
     props = sorted({p for s, p, o in T if p != M.RDF_TYPE})
-    for i in range(rnd.randint(1, 3)):
-        label = M.EX + "shapes/L%d" % i
-        it = {"label": label, "labelSpelling": rnd.choice(["bracket", "bracket", "prefixed"]),
+    # several entries may carry the same label (adjacent or not: S, T, S) and their selectors may overlap: a label denotes the
+    # union of what its entries select, every node once
+    nlabels = rnd.randint(1, 3)
+    spell = [rnd.choice(["bracket", "bracket", "prefixed"]) for _ in range(nlabels)]
+    for i in range(rnd.randint(1, 4)):
+        li = i if i < nlabels and rnd.random() < .7 else rnd.randrange(nlabels)
+        label = M.EX + "shapes/L%d" % li
+        it = {"label": label, "labelSpelling": spell[li],
               "spelling": rnd.choice(["bracket", "prefixed", "a"])}
         r = rnd.random()
         if r < .3 and nodes:
